@@ -56,6 +56,11 @@ Theorem C19_bind_v6_port : forall h p,
   plain h = true -> contains ":" h = true -> (0 <= p)%Z ->
   parse_bind ("[" ++ h ++ "]:" ++ dec p) = BInet true h p.
 Proof. exact bind_v6_port. Qed.
+(* a bare host in brackets (an IPv6 address without a port) keeps all its colons and gets the default port: "[::1]"
+   is ::1 port 8000, not host ":" port 1 (finding F63) *)
+Theorem C19_bind_v6_bare : forall h, plain h = true -> parse_bind ("[" ++ h ++ "]") = BInet (contains ":" h) h 8000.
+Proof. exact bind_v6_bare. Qed.
+Print Assumptions C19_bind_v6_bare.
 Print Assumptions C19_bind_unix.
 Print Assumptions C19_bind_fd.
 Print Assumptions C19_bind_host_port.
@@ -64,7 +69,8 @@ Print Assumptions C19_bind_v6_port.
 
 Example C19_bind_nonvacuous :
   parse_bind "[::1]:8443" = BInet true "::1" 8443 /\ parse_bind "example.org:80" = BInet false "example.org" 80
-  /\ parse_bind "0.0.0.0" = BInet false "0.0.0.0" 8000 /\ dec 8443 = "8443".
+  /\ parse_bind "0.0.0.0" = BInet false "0.0.0.0" 8000 /\ dec 8443 = "8443"
+  /\ parse_bind "[::1]" = BInet true "::1" 8000 /\ parse_bind "[fe80::1]" = BInet true "fe80::1" 8000.
 Proof. vm_compute. repeat split. Qed.
 
 (* root_path is normalised: never a trailing slash, and normalising twice changes nothing. *)
